@@ -38,6 +38,27 @@ def lib(where, fn, *a, **k):
         raise LibRaised(where, e) from e
 
 
+def history_independent(res, oracle, fn, args, other_args_list, what):
+    """A pure function returns the same value for the same arguments whatever was evaluated in between.
+
+    fn(*args) -> v1; fn(*other) for every other argument tuple (errors there are ignored); fn(*args) -> v2; v1 must
+    equal v2 exactly.  Catches memoisation keyed on too few arguments or on rounded / "close enough" keys."""
+    import numpy as _np
+
+    v1 = fn(*args)
+    for other in other_args_list:
+        try:
+            fn(*other)
+        except Exception:  # noqa: BLE001
+            pass
+    v2 = fn(*args)
+    a1, a2 = _np.asarray(v1, float), _np.asarray(v2, float)
+    if a1.shape != a2.shape or not _np.array_equal(a1, a2, equal_nan=True):
+        res.bad(oracle, f"{what}: {v1!r} on the first call, {v2!r} after evaluating {other_args_list!r} in between (arguments {args!r})")
+        return False
+    return True
+
+
 def json_default(o):
     if isinstance(o, (np.floating,)):
         return float(o)
